@@ -14,3 +14,6 @@ func VerifCheckInputBytes(maxEventSize int, cutOff bool, data []byte) (out []byt
 func VerifNewEvent(src SourceID, off int64, seq uint64, stream string) *Event {
 	return &Event{SourceID: src, Offset: off, SeqID: seq, streamName: StreamName(stream), SourceName: "f"}
 }
+
+// VerifBatchMarkIterable sets the flag Batch.append maintains (NewPreparedBatch does not).
+func VerifBatchMarkIterable(b *Batch, v bool) { b.hasIterableEvents = v }
